@@ -31,6 +31,7 @@ ASSUMPTIONS = [
     "doctest frame)",
 ]
 NSHARDS = {'quick': 16, 'thorough': 16}
+RULE += (' Also: google blocks that open with prose / an empty line (finding F51), escapes and line continuations behind the last doctest of non-raw docstrings, run-time exceptions that carry a lineno of their own, a raising __repr__ with and without printed output; probe copied-docstrings (three callables with the same docstring text, two collection rounds).')
 FAIL_KINDS = ['raise', 'multi_raise', 'compound_raise', 'called', 'called_long', 'gotwant', 'gotwant_eval',
               'gotwant_multi', 'gotwant_second', 'none', 'try_finally', 'try_except_other', 'comprehension',
               'with_raise', 'nested_try', 'lambda_call', 'while_else', 'compile_return', 'compile_nonlocal', 'bad_repr', 'bad_repr_multi', 'bad_repr_output',
